@@ -18,7 +18,7 @@ EXPLANATION = (
     'not decided.')
 ASSUMPTIONS = ['text-mode open() uses strict error handling (locale codec)',
                'A5: KeyError/IndexError/AttributeError are not modelled']
-MINIMUM = {'R19.1': 8, 'R19.2': 1, 'R19.3': 2, 'R19.4': 4, 'R19.5': 4}
+MINIMUM = {'R19.1': 8, 'R19.2': 1, 'R19.3': 2, 'R19.4': 4, 'R19.5': 4, 'R19.6': 4}
 
 
 # rules of sibling properties that are necessary conditions of this one too
@@ -189,3 +189,21 @@ def check(ctx):
         ctx.ob('R19.3', '%s: only *.trashinfo names are read as entries' % cmd,
                ok and bool(reads), construct=b.func.qualname, text='suffix filter',
                message='%s reads names in info/ that do not end in .trashinfo' % cmd)
+    # ---- R19.6 a branch the programmer believes cannot be taken ("raise RuntimeError(
+    # 'Unexpected ...')") must indeed be dead for everything a directory listing can
+    # produce: constant folding leaves such a raise out of the graph when the producer's
+    # tags / classes are all handled; a live one means some name or content found in a
+    # trash directory aborts the command
+    for cmd in ('list', 'restore', 'rm', 'empty'):
+        b = ctx.graph(cmd)
+        g = b.g
+        listings = [n.id for n in b.nodes('probe') if n.data.get('prim') == 'os.listdir']
+        live_beliefs = [n for n in b.nodes('raise') if n.data.get('belief') and
+                        n.id in b.live and any(g.dominates(l, n.id) for l in listings)]
+        ctx.ob('R19.6', '%s: no "cannot happen" raise is reachable from a directory listing'
+               % cmd, not live_beliefs, construct=b.func.qualname, text='belief raises',
+               node=live_beliefs[0] if live_beliefs else None,
+               message='%s: %s can be reached for some entry found in a trash directory: the '
+                       'producer hands over a case the consumer believes impossible, one odd '
+                       'entry aborts the whole command'
+                       % (cmd, (live_beliefs[0].src or '')[:80] if live_beliefs else ''))
